@@ -31,9 +31,9 @@ func init() { core.Register(c04{}) }
 func (c04) ID() string { return "C04" }
 func (c04) Cases(tier string) int {
 	if tier == "thorough" {
-		return 300000
+		return 600000
 	}
-	return 6000
+	return 30000
 }
 func (c04) Describe() core.Info {
 	return core.Info{
@@ -390,7 +390,11 @@ func (c04) Run(cs any) core.Result {
 	// shrink: other rules, facts, then literals of the target rule
 	min := c
 	min.Perm = nil
+	allowed := core.ShrinkAllowed(sig)
 	try := func(t c04Case) bool {
+		if !allowed {
+			return false
+		}
 		f := c04Exec(t, nil)
 		return f != nil && f.sig == sig
 	}
